@@ -350,11 +350,14 @@ TEMPLATES = [
 
 
 import math
-FN_HEAD = 'side float = 4 cm\nangle float = 60 deg\nhalf float = 0.5\n'
+FN_HEAD = 'side float = 4 cm\nangle float = 60 deg\nhalf float = 0.5\na float = 5 m\nb float = 6 m\nt float = 2 s\n'
 FN_CASES = [('cos(60 deg)', None, 0.5), ('sin(30 deg)', None, 0.5), ('tan(180 deg / 4)', None, 1.0), ('sin(1.5707963267948966)', None, 1.0), ('cos(1 rad)', None, math.cos(1)), ('exp(0)', None, 1.0),
             ('exp(2)', None, math.exp(2)), ('log(1)', None, 0.0), ('log10(1000)', None, 3.0), ('logb(8, 2)', None, 3.0), ('sqrt(16 m2)', 'm', 4.0), ('pow(2 m, 3)', 'm3', 8.0),
             ('{?side} * cos({?angle})', 'cm', 2.0), ('sin({?angle})', None, math.sin(math.pi / 3)), ('2 * sin(30 deg) + 1', None, 2.0), ('cos({?angle}) / {?half}', None, 1.0),
-            ('sin(3.141592653589793 / 6)', None, 0.5), ('tan(45 deg) * 3 m', 'm', 3.0), ('sqrt(9 m2) + 1 m', 'm', 4.0), ('pow(3 cm, 2) / 1 cm', 'cm', 9.0), ('sin(1 m)', None, None), ('cos(2 s)', None, None)]
+            ('sin(3.141592653589793 / 6)', None, 0.5), ('tan(45 deg) * 3 m', 'm', 3.0), ('sqrt(9 m2) + 1 m', 'm', 4.0), ('pow(3 cm, 2) / 1 cm', 'cm', 9.0), ('sin(1 m)', None, None), ('cos(2 s)', None, None),
+            # a sign in front of a reference, parenthesis or function (after another operator it is written with two blanks)
+            ('{?a} *  - {?b}', 'm2', -30.0), ('12 m /  - (1 s + {?t}) * {?t}', 'm', -8.0), ('2 *  - pow({?b}, 2)', 'm2', -72.0), (' - {?a} + 2 m', 'm', -3.0), ('3 m -  - {?b}', 'm', 9.0),
+            ('-8 / 2 * -4', None, 16.0), ('{?a} * -2', 'm', -10.0), ('{?a} /  - 2', 'm', -2.5), ('{?a} +  - {?b}', 'm', -1.0), (' - ({?a} - {?b})', 'm', 1.0)]
 
 
 def _ties():
@@ -370,7 +373,12 @@ def _ties():
                              ('w float = 57.3 kg', '{?w} >= 57300.01 g', True), ('w float = 57.3 kg', '{?w} != 57.30001 kg', False), ('w float = 57.3 kg', '{?w} >= 57.31 kg', False),
                              ('w float = 57.3 kg', '{?w} <= 57.29 kg', False), ('w float = 57.3 kg', '{?w} == 57.31 kg', False), ('w float = 57.3 kg', '{?w} != 57.31 kg', True),
                              ('w float = 57.3 kg', '~({?w} == 57.30001 kg)', False), ('k int = 3', '{?k} == 3', True), ('k int = 3', '{?k} != 3', False), ('k int = 3', '{?k} != 4', True),
-                             ('k int = 3', '{?k} <= 3 && {?k} >= 3', True)):
+                             ('k int = 3', '{?k} <= 3 && {?k} >= 3', True),
+                             # two integer nodes in different units: the comparison happens after an exact conversion, nothing is truncated
+                             ('height int = 177 cm\nstep int = 1 m', '{?height} == {?step}', False), ('height int = 177 cm\nstep int = 1 m', '{?height} > {?step}', True),
+                             ('height int = 177 cm\nstep int = 1 m', '{?height} <= {?step}', False), ('height int = 177 cm\nstep int = 1 m', '{?step} < {?height}', True),
+                             ('w int = 2500 mm\nd int = 2 m', '{?w} > {?d}', True), ('w int = 2500 mm\nd int = 2 m', '{?w} == {?d}', False), ('w int = 2500 mm\nd int = 2 m', '{?d} != {?w}', True),
+                             ('w int = 2000 mm\nd int = 2 m', '{?w} == {?d}', True), ('g\n  w int = 2500 mm\n  d int = 2 m', '{?g.w} >= {?g.d}', True)):
         out.append((head, expr, want))
     return out
 
